@@ -200,7 +200,12 @@ def generate(rng, opts):
     cfg["conflict_free"] = conflict_free
     # now and then the no-exec oracle is itself checked against a real import in a pristine interpreter
     cfg["crosscheck_oracle"] = rng.random() < 0.015
+    # the order of the search paths is independent of how their directories are named
+    sp_order = list(range(n_listed))
+    if rng.random() < 0.5:
+        rng.shuffle(sp_order)
     return {
+        "sp_order": sp_order,
         "world": {"dirs": dirs, "n_listed": n_listed},
         "target": target,
         "inspection": rng.random() < 0.35,
@@ -442,8 +447,10 @@ def execute(plan, ctx):
     world = plan["world"]
     tags = []
     with World(world["dirs"], tag="c14-") as w:
-        sps = w.sp_dirs[: world["n_listed"]]
-        oracle_sps = list(w.sp_dirs) if world["n_listed"] < len(w.sp_dirs) else sps
+        order = [i for i in plan.get("sp_order", range(world["n_listed"])) if i < world["n_listed"]]
+        order += [i for i in range(world["n_listed"]) if i not in order]
+        sps = [w.sp_dirs[i] for i in order]
+        oracle_sps = sps + [d for d in w.sp_dirs if d not in sps]
         target = plan["target"]
         results = []
         old_cwd = os.getcwd()
@@ -565,7 +572,7 @@ def shrink_candidates(plan):
     if len(dirs) > 1 and world["n_listed"] == len(dirs):
         for i in range(len(dirs)):
             nd = dirs[:i] + dirs[i + 1 :]
-            yield {**plan, "world": {"dirs": nd, "n_listed": len(nd)}}
+            yield {**plan, "world": {"dirs": nd, "n_listed": len(nd)}, "sp_order": list(range(len(nd)))}
     for i, files in enumerate(dirs):
         keys = list(files)
         for red in core.list_reductions(keys):
@@ -573,6 +580,8 @@ def shrink_candidates(plan):
             yield {**plan, "world": {**world, "dirs": dirs[:i] + [nf] + dirs[i + 1 :]}}
     if plan["inspection"]:
         yield {**plan, "inspection": False}
+    if plan.get("sp_order") and plan["sp_order"] != sorted(plan["sp_order"]):
+        yield {**plan, "sp_order": sorted(plan["sp_order"])}
 
 
 def sample_view(plan):
